@@ -448,15 +448,21 @@ pub fn reduced_priors(set: u8) -> Vec<Vec<u8>> {
 /// mode 0: continuation judged against R-AUTO (C01/C02); mode 1: against a fresh real decoder (C07)
 fn after_prior<D: ByteDev>(ctx: &mut Ctx, label: &str, mode: u8, chain2: bool, max_chain: u32) {
     let jobs: Vec<Vec<u8>> = if chain2 {
+        // two priors in a row: (reduced x all) and (all x reduced)
         let r = reduced_priors(D::SET);
+        let all = prior_sequences(D::SET);
         let mut v = vec![];
-        for a in &r {
-            for b in &r {
-                let mut x = a.clone();
-                x.extend(b);
-                v.push(x);
+        for (xs, ys) in [(&r, &all), (&all, &r)] {
+            for a in xs.iter() {
+                for b in ys.iter() {
+                    let mut x = a.clone();
+                    x.extend(b);
+                    v.push(x);
+                }
             }
         }
+        v.sort();
+        v.dedup();
         v
     } else {
         prior_sequences(D::SET)
